@@ -31,6 +31,10 @@ func NewPathMatcher(pathMask string) PathMatcher {
 	}
 
 	parts := strings.Split(strings.ToLower(strings.Trim(pathMask, "/")), "/")
+	for i := range parts {
+		// 与 Match 中 pathScanner 对路径各段的处理一致：去除段两端空白 (path segments are trimmed by the scanner, so pattern segments must be too)
+		parts[i] = strings.TrimFunc(parts[i], unicode.IsSpace)
+	}
 	wildcard := parts[len(parts)-1] == endWildcard
 	if wildcard {
 		parts = parts[0 : len(parts)-1]
